@@ -74,6 +74,15 @@ EmitTypes(op) ==
         PrintT(<<"CASE", ToJson(CaseRec("types", op, T(d1, <<2>>, <<Cat(d1)[1], Cat(d1)[2]>>),
                                         T(d2, <<2>>, <<Cat(d2)[2], Cat(d2)[1]>>), <<"mixed_types">>))>>)
 
+\* long operands (an element count that is no multiple of a block size): every element is computed, the last ones too
+LongN == 40003
+EmitLong(op) ==
+   LET dts == IF op \in LogicOps THEN {"bool"} ELSE {"f32", "i64"} IN
+   \A dt \in dts : \A bshape \in {<<1>>, <<LongN>>} :
+      LET A == IF dt = "bool" THEN T("bool", <<LongN>>, [k \in 1..LongN |-> (k * k) % 3 = 1]) ELSE T(dt, <<LongN>>, [k \in 1..LongN |-> Fin(((k * 7) % 23) - 11)])
+          B == IF dt = "bool" THEN T("bool", bshape, [k \in 1..Size(bshape) |-> k % 5 < 2]) ELSE T(dt, bshape, [k \in 1..Size(bshape) |-> Fin(((k * 5) % 19) + 1)])
+      IN PrintT(<<"CASE", ToJson(CaseRec("types", op, A, B, <<"long", dt>>))>>)
+
 Init ==
    CASE Mode = "shapes" -> st \in [mode : {"shapes"}, op : Ops, a : ShapeSet, b : ShapeSet, done : {FALSE}]
      [] Mode = "values" -> st \in [mode : {"values"}, op : Ops, dt : NumTypes \cup {"bool"}, done : {FALSE}]
@@ -84,7 +93,7 @@ Emit ==
    /\ CASE st.mode = "shapes" ->
              PrintT(<<"CASE", ToJson(CaseRec("shapes", st.op, IdT(st.op, st.a, 0), IdT(st.op, st.b, 100), ShapeFeat(st.a, st.b)))>>)
         [] st.mode = "values" -> (st.dt \in OpTypes(st.op) => EmitValues(st.op, st.dt))
-        [] st.mode = "types" -> EmitTypes(st.op)
+        [] st.mode = "types" -> EmitTypes(st.op) /\ EmitLong(st.op)
    /\ st' = [st EXCEPT !.done = TRUE]
 
 Next == Emit
